@@ -649,3 +649,115 @@ func TestD7_StopRunsWhileHandlerStillBindsAFid(t *testing.T) {
 		t.Fatalf("the entry bound by the in-flight attach was not released by Stop: release log %v", fs.log)
 	}
 }
+
+// ---------------------------------------------------------------- D19 (C14)
+
+// A Remove that is still waiting for the fid's lock (held by a slow Stat) has already
+// made the fid unknown to later requests, although the removal has not happened: a Read
+// on the fid fails with "unknown fid" and a walk issued after that still finds the file.
+// No sequential order of Stat, Remove, Read, Walk explains these results.
+
+type slowStatFS struct {
+	tfs
+	mu       sync.Mutex
+	removed  bool
+	statIn   chan struct{}
+	statGo   chan struct{}
+	removeIn chan struct{}
+}
+type slowEnt struct {
+	fs   *slowStatFS
+	name string
+	dir  bool
+}
+
+func (f *slowStatFS) Attach(context.Context, string, string, p9p.AuthFile) (p9p.Dirent, error) {
+	return &slowEnt{f, "/", true}, nil
+}
+func (e *slowEnt) Qid() p9p.Qid {
+	if e.dir {
+		return p9p.Qid{Type: p9p.QTDIR, Path: 1}
+	}
+	return p9p.Qid{Path: 2}
+}
+func (e *slowEnt) OpenDir(context.Context) (p9p.ReadNext, error) { return nil, errors.New("no") }
+func (e *slowEnt) Walk(ctx context.Context, names ...string) ([]p9p.Qid, p9p.Dirent, error) {
+	if len(names) == 0 {
+		return nil, &slowEnt{e.fs, e.name, e.dir}, nil
+	}
+	e.fs.mu.Lock()
+	gone := e.fs.removed
+	e.fs.mu.Unlock()
+	if names[0] != "a" || gone {
+		return nil, nil, p9p.ErrNotfound
+	}
+	n := &slowEnt{e.fs, "a", false}
+	return []p9p.Qid{n.Qid()}, n, nil
+}
+func (e *slowEnt) Create(context.Context, string, uint32, p9p.Flag) (p9p.Dirent, p9p.File, error) {
+	return nil, nil, errors.New("no")
+}
+func (e *slowEnt) Open(context.Context, p9p.Flag) (p9p.File, error) { return &tfile{&tent{&e.fs.tfs, e.name, false}}, nil }
+func (e *slowEnt) Remove(context.Context) error {
+	e.fs.mu.Lock()
+	e.fs.removed = true
+	e.fs.mu.Unlock()
+	return nil
+}
+func (e *slowEnt) Clunk(context.Context) error { return nil }
+func (e *slowEnt) Stat(context.Context) (p9p.Dir, error) {
+	if !e.dir {
+		close(e.fs.statIn)
+		<-e.fs.statGo
+	}
+	return p9p.Dir{Name: e.name}, nil
+}
+func (e *slowEnt) WStat(context.Context, p9p.Dir) error { return nil }
+
+func TestD19_RemoveHidesFidBeforeItTakesEffect(t *testing.T) {
+	ctx := context.Background()
+	fs := &slowStatFS{statIn: make(chan struct{}), statGo: make(chan struct{})}
+	s := p9p.SFileSys(fs)
+	s.Attach(ctx, 0, p9p.NOFID, "u", "")
+	s.Walk(ctx, 0, 9, "a")
+	s.Open(ctx, 9, p9p.ORDWR)
+	statDone := make(chan struct{})
+	go func() { s.Stat(ctx, 9); close(statDone) }() // holds fid 9's lock inside the FS
+	<-fs.statIn
+	remDone := make(chan error, 1)
+	go func() { remDone <- s.Remove(ctx, 9) }()
+	// wait until the Remove has reached fid 9's lock
+	for i := 0; ; i++ {
+		buf := make([]byte, 1<<16)
+		st := string(buf[:runtime.Stack(buf, true)])
+		if bytes.Contains([]byte(st), []byte("delRef")) && bytes.Contains([]byte(st), []byte("sync.Mutex.Lock")) {
+			break
+		}
+		if i > 2000 {
+			t.Fatal("remove never reached the lock")
+		}
+		time.Sleep(time.Millisecond)
+	}
+	// Read(9) is issued and completes while Stat and Remove are both still in progress
+	readDone := make(chan error, 1)
+	go func() { _, err := s.Read(ctx, 9, make([]byte, 4), 0); readDone <- err }()
+	var rerr error
+	select {
+	case rerr = <-readDone:
+	case <-time.After(100 * time.Millisecond):
+		// the read waits for the fid (as it should if the fid is still bound): fine
+		close(fs.statGo)
+		<-statDone
+		<-remDone
+		<-readDone
+		return
+	}
+	// the read returned although Stat (and therefore Remove) have not finished
+	qids, werr := s.Walk(ctx, 0, 3, "a") // issued after the read returned
+	close(fs.statGo)
+	<-statDone
+	<-remDone
+	if rerr != nil && werr == nil && len(qids) == 1 {
+		t.Fatalf("Read(9) failed with %q (as if the remove had happened) but a later Walk still found the file: not explainable by any sequential order", rerr)
+	}
+}
